@@ -209,6 +209,12 @@ def _mk_at(cls):
             c.require(kv["time_constant"] > 0)
         if "tc_rise" in kv:
             c.require(kv["tc_rise"] > 0, kv["tc_decay"] > kv["tc_rise"])
+        # the interpolation between stored steps: Delta / DeltaPlus choose it by name (documented default "previous"), the
+        # exponential synapses decay analytically
+        has_mode = cls in ("DeltaCurrent", "DeltaPlusCurrent")
+        imode = c.choice("interp_mode", ["default", "previous", "nearest"]) if has_mode else None
+        mode_kw = {} if imode in (None, "default") else {"interp_mode": imode}
+        want_interp = {None: "interp_expdecay", "default": "interp_previous", "previous": "interp_previous", "nearest": "interp_nearest"}[imode]
         cob_mode = c.choice("current_overbound", ["value", "none", "constructor_defaults"])
         if cob_mode == "constructor_defaults":
             # documented defaults: zero interpolation tolerance, out-of-bounds reads give 0.0 nA / no spike
@@ -216,12 +222,12 @@ def _mk_at(cls):
 
             sob_mode = "constructor_defaults"
             tol, cob, sob = _SV(z3.RealVal(0)), _SV(z3.RealVal(0)), _SV(z3.BoolVal(False))
-            syn = new_syn(c, file, cls, step_time=dt, delay=delay, **kv)
+            syn = new_syn(c, file, cls, step_time=dt, delay=delay, **mode_kw, **kv)
         else:
             sob_mode = c.choice("spike_overbound", ["value", "none"])
             cob = c.real("current_overbound") if cob_mode == "value" else None
             sob = c.bool("spike_overbound") if sob_mode == "value" else None
-            syn = new_syn(c, file, cls, step_time=dt, delay=delay, interp_tol=tol, current_overbound=cob, spike_overbound=sob, **kv)
+            syn = new_syn(c, file, cls, step_time=dt, delay=delay, interp_tol=tol, current_overbound=cob, spike_overbound=sob, **mode_kw, **kv)
         calls = []
 
         def summary(interp, fi, args, kwargs):
@@ -242,6 +248,8 @@ def _mk_at(cls):
             c.ensure(f"{m}_reads_its_own_record", a[0] is syn.fields[recname])
             c.ensure(f"{m}_passes_selector", a[1] is sel)
             c.ensure(f"{m}_tolerance_in_tolerance_position", eqnum(a[4], tol.z))
+            iname = str(getattr(a[2], "qualname", None) or getattr(getattr(a[2], "node", None), "name", None) or a[2])
+            c.ensure(f"{m}_interpolates_as_configured", iname.split(".")[-1] == (want_interp if kind != "spike" or has_mode else iname.split(".")[-1]))
             exp_ob = sob if kind == "spike" else cob
             if exp_ob is None:
                 c.ensure(f"{m}_overbound_none_in_overbound_position", a[5] is None)
@@ -309,6 +317,7 @@ ASSUMPTIONS = [
 ]
 
 MUTANTS = [
+    dict(file=SC, func="DeltaPlusCurrent.__init__", old='            case "nearest":\n                interp = interp_nearest', new='            case "nearest":\n                interp = interp_previous', contracts=["DeltaPlusCurrent.*_at[wiring]"], name="seed C04g: interp_mode nearest silently behaves as previous"),
     dict(file=SM, func="_synparam_at", old="                tolerance=tolerance,\n", new="", contracts=["_synparam_at"], name="seed C04b: the synapse's interpolation tolerance is not forwarded to select"),
     dict(file=SM, func="SpikeMixin.spike_at", old="self.__tolerance,\n            self.__overbound,", new="self.__overbound,\n            self.__tolerance,", contracts=["DeltaCurrent.*_at[wiring]", "SingleExponentialCurrent.*_at[wiring]"], name="D5 regression: spike_at tolerance/overbound swapped"),
     dict(file=SM, func="_synparam_at", old="bounded_selector = selector.clamp(min=0, max=value.duration)", new="bounded_selector = selector", contracts=["_synparam_at"]),
